@@ -903,11 +903,11 @@ impl Window {
     }
     fn reap_one(&mut self, acc: &mut Acc) {
         if let Some((sc, rx)) = self.inflight.pop_front() {
-            match rx.recv_timeout(Duration::from_secs(60)) {
+            match rx.recv_timeout(Duration::from_secs(600)) {
                 Ok(out) => judge_daemon(acc, &sc, &out),
                 Err(_) => {
                     acc.count("daemon.scenario_hung_or_lost");
-                    acc.inconclusive(&format!("a scenario did not finish within 60 s: {:?}", sc.script));
+                    acc.inconclusive(&format!("a scenario did not finish within 600 s: {:?}", sc.script));
                 }
             }
         }
